@@ -194,7 +194,7 @@ def _work(job: t.Tuple[t.Any, ...]) -> evid.Local:
         vals = " ".join("'v%d'" % i for i in range(big))
         exts = " ".join("X-K%s 'v%d'" % ("".join("abcdefghij"[int(c)] for c in str(i)), i) for i in range(300))
         cases = {
-            "oc": [f"( 1.2 NAME ( {names} ) SUP ( {oids} ) MUST ( {oids} ) X-A ( {vals} ) )", f"( 1.2 NAME 'CN' SUP TOP MAY ( top $ Top $ TOP ) {exts} )", "( 1.2 NAME ( 'x' 'X' ) DESC 'd' X-A 'p' X-a 'q' )"],
+            "oc": ["( 1.2 DESC '" + "d" * 70000 + "' X-A '" + "e" * 66000 + "' )", f"( 1.2 NAME ( {names} ) SUP ( {oids} ) MUST ( {oids} ) X-A ( {vals} ) )", f"( 1.2 NAME 'CN' SUP TOP MAY ( top $ Top $ TOP ) {exts} )", "( 1.2 NAME ( 'x' 'X' ) DESC 'd' X-A 'p' X-a 'q' )"],
             "at": [f"( 1.2 NAME ( {names} ) SYNTAX 1.3.6.1{{2147483648}} X-A ( {vals} ) )", "( 1.2 SYNTAX 1.3.6.1{1000000000000000000000000000000} )", "( 1.2 SUP NAME EQUALITY Name SYNTAX '1.3.6.1{4294967296}' )",
                    f"( 1.2 NAME 'cn' {exts} )"],
             "dcr": [f"( 1.2 AUX ( {oids} ) MUST ( {oids} ) MAY ( {oids} ) NOT ( {oids} ) X-A ( {vals} ) )", f"( 1.2 NAME ( {names} ) {exts} )"],
